@@ -13,6 +13,16 @@
 // bytes, [do-not-modify], fee/treasury only, or an edit by a non-owner (refused by the chain). Every oracle is
 // evaluated after every round; in addition the executable the executor is handed must be the data source's
 // executable on the chain (at request time = the hash in the raw_request event, or at handling time).
+//
+// "Passes the chain's report validation" is decided by the chain itself: at the end of every round each report the
+// daemon queued is signed by the validator's account and DELIVERED in the next block of the chain the request came
+// from (real ante handler + real MsgReportData handler). The request is open (made one or two blocks earlier, far
+// from ExpirationBlockCount), selects the validator and has no report of it yet, so the transaction must succeed,
+// unless a raw report is longer than the chain's MaxReportDataSize. yoda never cuts an output itself; the shipped
+// executor does (yoda/executor/docker.go reads at most the report-data limit from the output), so the executor stub
+// cuts its output to ExecCut bytes the same way. ExecCut equals the chain's MaxReportDataSize (drawn per case from
+// 16/64/512) in most cases, which puts outputs of exactly the limit into many reports; in a few cases the stub does
+// not cut (ExecCut 0) and an over-long report is refused by the chain legitimately (counted, not asserted).
 package c19
 
 import (
@@ -135,6 +145,8 @@ type c19Case struct {
 	NKeys     int     `json:"nkeys"`                // 1 or 3 reporter keys
 	Procs     int     `json:"procs,omitempty"`      // GOMAXPROCS for this case (0 = leave)
 	ExclShort int     `json:"excl_short,omitempty"` // number of short executables remapped because of the known finding
+	MaxData   int     `json:"max_data,omitempty"`   // oracle param MaxReportDataSize of the chain (0 = default 512)
+	ExecCut   int     `json:"exec_cut,omitempty"`   // the executor cuts its output to this many bytes (0 = it does not cut)
 	// later rounds handled by the same daemon Context (round 1 = the fields above)
 	LateEdits []c19Edit  `json:"late_edits,omitempty"` // round 1: edits between the requests and their handling
 	Rounds    []c19Round `json:"rounds,omitempty"`
@@ -178,7 +190,7 @@ func genExecLen(rt *rapid.T, minLen int, excl *int) int {
 // genTxs draws the request transactions of one round. prefer (may be empty) lists data source indices the round
 // should ask on purpose: the first raw request of the first request takes one of them and that request tends to ask
 // every active validator, so that the daemon's validator is selected whenever it is active.
-func genTxs(rt *rapid.T, nds, nActive int, prefer []int, used map[int]bool) []c19Tx {
+func genTxs(rt *rapid.T, nds, nActive, maxData int, prefer []int, used map[int]bool) []c19Tx {
 	var out []c19Tx
 	ntx := rapid.IntRange(1, 3).Draw(rt, "ntx")
 	for t := 0; t < ntx; t++ {
@@ -221,7 +233,8 @@ func genTxs(rt *rapid.T, nds, nActive int, prefer []int, used map[int]bool) []c1
 				default:
 					raw.Kind = "err"
 				}
-				raw.OutLen = gen.OneOf(rt, "outlen", 0, 0, 1, 8, 24, 100, 512, 600)
+				// output length: small ones, and the chain's report-data limit -1, +0, +1 and well above it
+				raw.OutLen = gen.OneOf(rt, "outlen", 0, 0, 1, 8, 24, 100, maxData-1, maxData, maxData, maxData+1, maxData+88)
 				raw.OutSeed = gen.Uniform(rt, "outseed", 250)
 				raw.DelayUs = gen.OneOf(rt, "delay", 0, 0, 0, 20, 100, 400, 1500)
 				q.Raws = append(q.Raws, raw)
@@ -318,7 +331,12 @@ func genC19(rt *rapid.T) c19Case {
 		// the daemon has already looked up
 		prefer1 = []int{gen.Uniform(rt, "planned", nds)}
 	}
-	c.Txs = genTxs(rt, nds, nActive, prefer1, used)
+	c.MaxData = gen.OneOf(rt, "maxdata", 512, 512, 64, 16)
+	c.ExecCut = c.MaxData
+	if gen.Chance(rt, "nocut", 1, 10) {
+		c.ExecCut = 0
+	}
+	c.Txs = genTxs(rt, nds, nActive, c.MaxData, prefer1, used)
 	c.Rot = gen.Uniform(rt, "rot", 4)
 	c.Rev = gen.Chance(rt, "rev", 1, 3)
 	c.Ghost = gen.Chance(rt, "ghost", 1, 10)
@@ -341,7 +359,7 @@ func genC19(rt *rapid.T) c19Case {
 				edited[mod(e.DS, nds)] = true
 			}
 		}
-		rd.Txs = genTxs(rt, nds, nActive, sortedKeys(edited), used)
+		rd.Txs = genTxs(rt, nds, nActive, c.MaxData, sortedKeys(edited), used)
 		rd.Mode = gen.OneOf(rt, "rmode", "direct", "direct", "direct-go", "tx", "tx", "tx-go")
 		rd.Rot = gen.Uniform(rt, "rrot", 4)
 		rd.Rev = gen.Chance(rt, "rrev", 1, 3)
@@ -373,6 +391,15 @@ func execBytes(d c19DS) []byte {
 	}
 	if n >= 2 {
 		b[0], b[1] = '#', '!'
+	}
+	return b
+}
+
+// cutOut is what an executor with output limit cut (0 = none) returns for r (docker.go: io.LimitReader on the output).
+func cutOut(r c19Raw, cut int) []byte {
+	b := outBytes(r)
+	if cut > 0 && len(b) > cut {
+		b = b[:cut]
 	}
 	return b
 }
@@ -575,6 +602,7 @@ type execAccept struct{ reqHash, handleHash string }
 
 type execStub struct {
 	inflight *int64
+	cut      int // output limit of the executor (0 = none)
 
 	mu          sync.Mutex
 	outcomes    map[execKey]c19Raw
@@ -637,7 +665,7 @@ func (e *execStub) Exec(code []byte, arg string, env interface{}) (executor.Exec
 	if raw.Kind == "err" {
 		return executor.ExecResult{}, errors.New("stub: executor failed")
 	}
-	return executor.ExecResult{Output: outBytes(raw), Code: raw.Code, Version: "stub:1"}, nil
+	return executor.ExecResult{Output: cutOut(raw, e.cut), Code: raw.Code, Version: "stub:1"}, nil
 }
 
 // ---- crash journal -----------------------------------------------------------------------------------
@@ -705,6 +733,7 @@ type c19World struct {
 	v     *pbt.Verdict
 	ch    *sim.Chain
 	nds   int
+	me    int
 	myVal sdk.ValAddress
 
 	cur        map[uint64]dsVer // model of the chain: data source id -> current executable
@@ -731,6 +760,7 @@ type c19World struct {
 	editsFeeOnly, lateHashChanged, betweenHashChanged                                   int
 	askedAgainRaws, askedAgainRan, askedUneditedAgain                                   int
 	modes                                                                               map[string]bool
+	delivered, deliveredAtMax, deliveredBelowMax, overRefused, overAccepted             int
 }
 
 // applyEdits sends one MsgEditDataSource transaction per edit in one block and moves the model along.
@@ -865,6 +895,12 @@ func runC19(c c19Case) *pbt.Verdict {
 	if c.MaxTry > 5 {
 		c.MaxTry = 5
 	}
+	if c.MaxData < 0 || c.MaxData > 1024 {
+		c.MaxData = 0
+	}
+	if c.ExecCut < 0 {
+		c.ExecCut = 0
+	}
 	nds := len(c.DSs)
 	me := mod(c.Me, c.NVals)
 	if c.ExclShort > 0 {
@@ -898,6 +934,9 @@ func runC19(c c19Case) *pbt.Verdict {
 	}
 	op := oracletypes.DefaultParams()
 	op.MaxCalldataSize = 1024
+	if c.MaxData > 0 {
+		op.MaxReportDataSize = uint64(c.MaxData)
+	}
 	ch, err := sim.New(sim.Config{NumAccounts: 1, Validators: vals, Oracle: &op, DataSources: dss, Scripts: [][]byte{c19Script()}}, 0)
 	if err != nil {
 		v.Failf("harness", "sim.New: %v", err)
@@ -905,6 +944,7 @@ func runC19(c c19Case) *pbt.Verdict {
 	}
 	defer ch.Close()
 	w.ch = ch
+	w.me = me
 	w.myVal = ch.Vals[me].Val
 	var txs [][]byte
 	for i, a := range c.Active {
@@ -939,7 +979,7 @@ func runC19(c c19Case) *pbt.Verdict {
 		}
 	}
 	w.rpc = &rpcStub{app: ch.App, inflight: &w.inflight, yield: c.Yield, permFail: w.permHash}
-	w.ex = &execStub{inflight: &w.inflight, outcomes: map[execKey]c19Raw{}, accept: map[execKey]execAccept{}, calls: map[execKey]int{},
+	w.ex = &execStub{inflight: &w.inflight, cut: c.ExecCut, outcomes: map[execKey]c19Raw{}, accept: map[execKey]execAccept{}, calls: map[execKey]int{},
 		gotHash: map[execKey]string{}}
 	kb, err := keyringFor(c.NKeys)
 	if err != nil {
@@ -1332,9 +1372,9 @@ func (w *c19World) round(ri int, rd c19Round) (*pbt.Verdict, bool) {
 					if rr.ExitCode != 255 {
 						v.Failf("C19/outcome", "request %d eid %d: executor returned an error but exit code is %d, want 255", m.id, r.EID, rr.ExitCode)
 					}
-				} else if rr.ExitCode != r.Code || !bytes.Equal(rr.Data, outBytes(r)) {
+				} else if want := cutOut(r, c.ExecCut); rr.ExitCode != r.Code || !bytes.Equal(rr.Data, want) {
 					v.Failf("C19/outcome", "request %d eid %d: report (exit %d, %d bytes) differs from the executor's result (exit %d, %d bytes)",
-						m.id, r.EID, rr.ExitCode, len(rr.Data), r.Code, r.OutLen)
+						m.id, r.EID, rr.ExitCode, len(rr.Data), r.Code, len(want))
 				}
 				if (h == hReq || h == hNow) && w.permHash[h] && !w.cachedHash[h] {
 					v.Failf("harness", "request %d eid %d: executor ran although the file can never be fetched", m.id, r.EID)
@@ -1397,6 +1437,61 @@ func (w *c19World) round(ri int, rd c19Round) (*pbt.Verdict, bool) {
 		return nil, false
 	}
 
+	// -- delivery: the chain the requests came from decides whether the reports pass its validation -----------
+	// Each report travels in a transaction of its own, signed by the validator's account, in the very next block.
+	// The request is open, selects the validator and has no report of it yet (all checked above), so the only
+	// legitimate refusal is a raw report longer than MaxReportDataSize (the executor did not cut its output).
+	maxData := int(ch.App.OracleKeeper.GetParams(ctx).MaxReportDataSize)
+	var dtxs [][]byte
+	var dreps []*oracletypes.MsgReportData
+	for _, m := range models {
+		if reps := got[m.id]; m.selected && len(reps) == 1 {
+			dtxs = append(dtxs, ch.SignTx(ch.Vals[w.me], reps[0]))
+			dreps = append(dreps, reps[0])
+		}
+	}
+	if len(dtxs) > 0 {
+		dres, derr := ch.Block(dtxs, time.Second)
+		if derr != nil || len(dres.Resp.TxResults) != len(dreps) {
+			v.Failf("C19/delivery-block", "round %d: the block carrying %d reports could not be finalized: %v", ri+1, len(dreps), derr)
+			return nil, false
+		}
+		for i, rp := range dreps {
+			tr := dres.Resp.TxResults[i]
+			over, atMax, longest := false, false, 0
+			for _, rr := range rp.RawReports {
+				if len(rr.Data) > longest {
+					longest = len(rr.Data)
+				}
+				over = over || len(rr.Data) > maxData
+				atMax = atMax || len(rr.Data) == maxData
+			}
+			switch {
+			case tr.Code == 0 && over:
+				w.overAccepted++
+			case tr.Code == 0:
+				w.delivered++
+				if atMax {
+					w.deliveredAtMax++
+				} else if longest == maxData-1 {
+					w.deliveredBelowMax++
+				}
+			case over:
+				w.overRefused++
+				if tr.Codespace != oracletypes.ModuleName || tr.Code != oracletypes.ErrTooLargeRawReportData.ABCICode() {
+					v.Count("over_limit_refused_other_reason", 1)
+				}
+			default:
+				v.Failf(fmt.Sprintf("C19/delivery-refused:%s/%d", tr.Codespace, tr.Code),
+					"request %d (round %d): the report the daemon queued (%d raw reports, longest data %d bytes, MaxReportDataSize %d) was refused by the chain in block h=%d: %s",
+					uint64(rp.RequestID), ri+1, len(rp.RawReports), longest, maxData, dres.Height, firstLine(tr.Log))
+			}
+		}
+		if v.Violation != "" {
+			return nil, false
+		}
+	}
+
 	// -- per-round class material -------------------------------------------------------------------------
 	for _, m := range models {
 		if !m.selected {
@@ -1450,6 +1545,24 @@ func (w *c19World) stats(nRounds int) {
 	v.Count("exec_got_request_time_executable", int64(atReq))
 	v.Count("exec_got_handling_time_executable", int64(atHandle))
 	v.Count("load_failure_ambiguous_hash", int64(w.loadAmbiguous))
+	v.Count("reports_delivered_accepted", int64(w.delivered))
+	v.Count("reports_delivered_with_data_at_max_size", int64(w.deliveredAtMax))
+	v.Count("reports_delivered_with_data_one_below_max", int64(w.deliveredBelowMax))
+	v.Count("reports_over_limit_refused", int64(w.overRefused))
+	v.Count("reports_over_limit_accepted", int64(w.overAccepted))
+	if w.delivered > 0 {
+		v.Class("report-delivered-accepted")
+	}
+	if w.deliveredAtMax > 0 {
+		v.Class("report-data-at-max-size")
+	}
+	if w.deliveredBelowMax > 0 {
+		v.Class("report-data-one-below-max-size")
+	}
+	if w.overRefused > 0 {
+		v.Class("report-over-limit-refused")
+	}
+	v.Class(fmt.Sprintf("max-report-data:%d", w.ch.App.OracleKeeper.GetParams(w.ch.Ctx()).MaxReportDataSize))
 	for _, m := range []string{"direct", "direct-go", "tx", "tx-go"} {
 		if w.modes[m] {
 			v.Class("mode:" + m)
@@ -1529,6 +1642,16 @@ func (w *c19World) stats(nRounds int) {
 	if w.severalTxs {
 		v.Class("several-txs")
 	}
+}
+
+func firstLine(s string) string {
+	if i := strings.IndexByte(s, '\n'); i >= 0 {
+		s = s[:i]
+	}
+	if len(s) > 300 {
+		s = s[:300]
+	}
+	return s
 }
 
 func TestC19(t *testing.T) { pbt.Check(t, "C19", genC19, runC19) }
